@@ -304,11 +304,31 @@ func c17Case(c *fw.Case, thorough bool) {
 	d, keys, shape := c17Doc(r)
 	kt := fw.Pick(r, gen.SigningKeyTypes)
 	upd, rec := gen.NewKey(r, kt), gen.NewKey(r, kt)
+	unlabelled := false
+	if r.Chance(1, 8) {
+		// a key listed under authentication through an entry whose relationship field was left at its zero value (a hand-built
+		// entry): the VDR either refuses the document or creates a DID that resolves to all of it - it does not drop the key
+		uk := gen.NewKey(r, gen.Ed25519)
+		if j, jerr := jwksupport.JWKFromKey(uk.Public()); jerr == nil {
+			if vm, verr := docdid.NewVerificationMethodFromJWK("unlabelled", gen.TJwk2020, "", j); verr == nil {
+				entry := *docdid.NewReferencedVerification(vm, docdid.Authentication)
+				entry.Relationship = 0
+				d.Authentication = append(d.Authentication, entry)
+				keys = append(keys, c17Key{frag: "unlabelled", typ: gen.TJwk2020, rels: []docdid.VerificationRelationship{docdid.Authentication}, value: vm.Value})
+				unlabelled = true
+				shape += "U"
+			}
+		}
+	}
 	c.Evals(1)
 	res, err := c17Create(r, v, d, upd, rec)
 	if err != nil {
 		if strings.Contains(err.Error(), "exceeds maximum") {
 			c.Count("not-accepted:too-large", 1)
+			return
+		}
+		if unlabelled {
+			c.Count("not-accepted:unlabelled-relationship", 1)
 			return
 		}
 		c.Failf("create-error", map[string]interface{}{"shape": shape, "err": err.Error()}, "VDR.Create refused a supported document: %v", err)
